@@ -22,6 +22,22 @@ def exStep (s : ExSt) (toks : List String) : ExSt × String :=
       if !r.2 then (s, "fuel-exhausted") else
       (s, " ".intercalate (cls.map fun c => match r.1 c with | some k => s!"{c}={k}" | none => s!"{c}=none"))
     | none => (s, "bad-op")
+  | "term" :: classes =>
+    -- the whole pipeline (rank-guarded edges, grounded-set repair, reconstruction): theorem C07_extract_term
+    match classes.mapM String.toNat? with
+    | some cls =>
+      let edges := s.edges.toList
+      let fuel := edges.length * edges.length + 8
+      if !(bellmanFordR edges fuel ⟨noCosts, fun _ => 0, 0⟩).2 then (s, "fuel-exhausted") else
+      let r := extractAll edges fuel
+      let show1 := fun (c : Nat) =>
+        if r.1.grounded.contains c then
+          match reconstruct r.1.parent (r.1.grounded.length + 1) c with
+          | some t => s!"{c}={t.cost}"
+          | none => s!"{c}=stuck"
+        else s!"{c}=none"
+      (s, s!"repair={if r.2.2 then 1 else 0} " ++ " ".intercalate (cls.map show1))
+    | none => (s, "bad-op")
   | _ => (s, "bad-op")
 
 end Driver
